@@ -33,6 +33,7 @@ import FqeVerif.Lemmas.Gosper
 import FqeVerif.Lemmas.MapSet
 import FqeVerif.Lemmas.Deexc
 import FqeVerif.Lemmas.PyInt
+import FqeVerif.Lemmas.ZMatrixC
 namespace C05
 open Model Fock
 
@@ -347,7 +348,7 @@ theorem C05_py_kfold_map (source mask : Nat) (ops : List Nat) :
   GenPy.py_mmes_entry source mask ops
 
 /-- the reference-path Z matrix: the two loop nests of `_get_Z_matrix` *as they stand in /repo* (ranges, index and
-    value expressions translated on every run; `binom` = scipy's on non-negative integers, PyPrelude.pyBinom) assign
+    value expressions translated on every run; `math.comb` = PyPrelude.pyBinom) assign
     at every index they name the Model's `zEntry`, and an index they never name has `zEntry = 0` (`numpy.zeros`).
     With `C05_zmatrix_closed` and `C05_address` the addresses computed from the *source* matrix are the lexical ranks. -/
 theorem C05_py_zmatrix (norb nele : Nat) (hn : nele ≤ norb) (r c : Nat) :
@@ -365,5 +366,42 @@ theorem C05_py_zmatrix (norb nele : Nat) (hn : nele ≤ norb) (r c : Nat) :
   GenPy.py_z_matrix norb nele hn r c
 
 example : GenPy.z1_value 6 3 1 2 = zEntry 6 3 0 1 ∧ zEntry 6 3 0 1 = 6 ∧ (2 : Int) ∈ GenPy.z1_cols 6 3 1 := by decide +kernel
+
+/-- the accelerated-path Z matrix: the loops of `calculate_Z_matrix` (fci_graph.c) and the literal binomial table of
+    `initialize_binom` (binom.h), both read from /repo on every run, for every norb ≤ 64 (the size of the table):
+    the first nest visits exactly the (k, ll) of the Model's first branch, every table entry it reads was initialised,
+    the accumulated value is `zEntry`, and it is stored at the row-major position; the second nest stores the last
+    row.  With `C05_py_zmatrix` both paths build the same matrix; with `C05_address` its addresses are lexical ranks. -/
+theorem C05_c_zmatrix (norb nele : Nat) (hN : norb ≤ 64) (hn : nele ≤ norb) :
+    (∀ km llm : Int, 0 ≤ km → km < GenC.cz_km_bound norb nele → 0 ≤ llm → llm < GenC.cz_llm_bound norb nele →
+        ∃ r c : Nat, GenC.cz_k km = (r : Int) + 1 ∧ GenC.cz_ll llm (GenC.cz_k km) = (c : Int) + 1 ∧ r + 1 < nele ∧ r ≤ c ∧
+          c ≤ norb - nele + r ∧
+          GenC.czValue (norb : Int) (nele : Int) (GenC.cz_k km) (GenC.cz_ll llm (GenC.cz_k km)) = some (zEntry norb nele r c) ∧
+          GenC.cz_out1 norb (GenC.cz_k km) (GenC.cz_ll llm (GenC.cz_k km)) = ((c + norb * r : Nat) : Int)) ∧
+    (∀ r c : Nat, r + 1 < nele → r ≤ c → c ≤ norb - nele + r →
+        ∃ km llm : Int, 0 ≤ km ∧ km < GenC.cz_km_bound norb nele ∧ 0 ≤ llm ∧ llm < GenC.cz_llm_bound norb nele ∧
+          GenC.cz_k km = (r : Int) + 1 ∧ GenC.cz_ll llm (GenC.cz_k km) = (c : Int) + 1) ∧
+    (∀ ll : Int, GenC.cz2_lo norb nele ≤ ll → ll < GenC.cz2_hi norb nele → 0 < nele →
+        ∃ c : Nat, ll = (c : Int) + 1 ∧ nele ≤ c + 1 ∧ c + 1 ≤ norb ∧
+          GenC.cz2_val nele ll = zEntry norb nele (nele - 1) c ∧
+          GenC.cz2_out norb (GenC.cz2_k norb nele) ll = ((c + norb * (nele - 1) : Nat) : Int)) :=
+  GenC.c_z_matrix norb nele hN hn
+
+/-- the literal table of binom.h is Pascal's triangle up to row 64; the rest of a row is never initialised -/
+theorem C05_c_binom_table (n k : Nat) (hn : n ≤ 64) :
+    (k ≤ n → GenC.tabRead ((k : Int) + 65 * (n : Int)) = some (Nat.choose n k)) ∧
+    (n < k → k < 65 → GenC.tabRead ((k : Int) + 65 * (n : Int)) = none) := by
+  refine ⟨fun hk => GenC.tabRead_spec n k hn hk, fun h1 h2 => ?_⟩
+  unfold GenC.tabRead
+  have h0 : ¬ ((k : Int) + 65 * (n : Int) < 0) := by omega
+  have e1 : ((k : Int) + 65 * (n : Int)).toNat = n * 65 + k := by omega
+  have e2 : (n * 65 + k) / 65 = n := by omega
+  have e3 : (n * 65 + k) % 65 = k := by omega
+  rw [if_neg h0, e1, e2, e3, GenC.binomRows_eq]
+  simp only [List.getElem?_map, List.getElem?_range (show n < 65 by omega), Option.map_some, Option.bind_some]
+  rw [List.getElem?_eq_none (by simp; omega)]
+  rfl
+
+example : GenC.czValue 6 3 1 2 = some 6 ∧ zEntry 6 3 0 1 = 6 := by decide +kernel
 
 end C05
